@@ -146,7 +146,11 @@ pdgstrf_pivotL(
 	*pivrow = lsub_ptr[pivptr];
     }
     
-    SLU_VERIF_EV(SLU_VEV_PIVOT_OUT, pnum, jcol, *pivrow, (int_t) *usepr, &thresh);
+#ifdef SLU_MT_VERIF
+    {   __typeof__(thresh) vthresh = thresh; /* thresh is a register variable */
+	SLU_VERIF_EV(SLU_VEV_PIVOT_OUT, pnum, jcol, *pivrow, (int_t) *usepr, &vthresh);
+    }
+#endif
     /* Record pivot row */
     perm_r[*pivrow] = jcol;
     inv_perm_r[jcol] = *pivrow;
